@@ -139,6 +139,34 @@ def register(R, tier="quick"):
                     note="matched set through search / docs_for_query / Query.docs / len(limit=1) vs brute-force evaluators")
 
 
+    def nfn(prefixes):
+        def fn(tier_, seed):
+            key = ("nested", tier_, seed)
+            if key not in _cache:
+                _cache[key] = run_native("nested_bounded.py", [400 if tier_ == "quick" else 6000, seed])
+            out = dict(_cache[key])
+            fs = []
+            for f in out.get("failures", []):
+                if any(f["case"].startswith(p) for p in prefixes) or f["case"].startswith("exception"):
+                    f = dict(f)
+                    f["snippet"] = ("import runpy, sys\nsys.argv = ['nested_bounded.py', '--corpus', %r]\n"
+                                    "runpy.run_path(%r, run_name='__main__')\n"
+                                    % (json.dumps(f["corpus"]), os.path.join(ROOT, "bounded", "nested_bounded.py")))
+                    fs.append(f)
+            out["failures"] = fs
+            return out
+        return fn
+    nested_bound = ("random corpora of 1-6 groups (one parent + 0-3 children each, incl. childless parents) over 1-3 segments cut at "
+                    "group boundaries, 0-2 deleted children, optionally one deleted group, before and after optimize; "
+                    "quick 400 corpora, thorough 6000")
+    R.bounded_check("nested-bounded@C06", ["C06"], nfn(["C06-"]), bound=nested_bound,
+                    note="NestedParent / NestedChildren return exactly the parents with a live matching child / the live children "
+                         "of the matching parents, also after the groups went through optimize")
+    R.bounded_check("nested-bounded@C01", ["C01"], nfn(["C06-"]), bound=nested_bound,
+                    note="result sets of the parent/child queries against a group model")
+    R.bounded_check("nested-bounded@C11", ["C11"], nfn(["C11-"]), bound=nested_bound,
+                    note="NestedParentMatcher / NestedChildMatcher per segment: ascending ids, skip_to(t) for every t, reset")
+
     def sfn(tier_, seed):
         out = run_native("structures_bounded.py", [1 if tier_ == "quick" else 6, seed])
         for f in out.get("failures", []):
